@@ -19,7 +19,33 @@ def random_weights(rng, s, ell_max, lead=(), kind="random"):
         a = (nprng.normal(size=size) + 1j * nprng.normal(size=size)) * 10.0 ** nprng.uniform(-12, 12, size=size)
     else:
         a = nprng.normal(size=size) + 1j * nprng.normal(size=size)
-    return a.reshape(tuple(lead) + (n,))
+    a = a.reshape(tuple(lead) + (n,))
+    # value patterns a fast path might special-case (all legitimate functions)
+    if kind == "tiny":            # data in small units (e.g. strain ~ 1e-21)
+        a *= 1e-21
+    elif kind == "huge":
+        a *= 1e18
+    elif kind == "real":          # real weights (not, in general, a real function)
+        a = a.real + 0j
+    elif kind == "imag":
+        a = 1j * a.real
+    elif kind == "axisym":        # only m = 0
+        keep = np.zeros(n, dtype=bool)
+        keep[[l * (l + 1) for l in range(ell_max + 1)]] = True
+        a = a * keep
+    elif kind == "lastzero":      # dense, but the very last weight (ell_max, +ell_max) vanishes
+        a[..., -1] = 0
+    elif kind == "toplow":        # highest shell many orders of magnitude below the rest (rapidly decaying spectrum)
+        a[..., ell_max ** 2:] *= 1e-12
+    elif kind == "realfunc":      # weights of a real-valued spin-0 function: f_{l,-m} = (-1)^m conj(f_{l,m})
+        for l in range(ell_max + 1):
+            for m in range(1, l + 1):
+                a[..., l * (l + 1) - m] = (-1) ** m * np.conj(a[..., l * (l + 1) + m])
+            a[..., l * (l + 1)] = a[..., l * (l + 1)].real
+    return a
+
+
+KINDS = ["random", "tiny", "real", "axisym", "lastzero", "dynamic", "toplow", "imag", "huge", "single", "realfunc", "zero"]
 
 
 def make_modes(rng, s, ell_max, lead=(), kind="random", **kw):
